@@ -1028,7 +1028,7 @@ def run(ctx, rep):
     # ---- modifiers.annotate applied on top of a decorated callable (re-runs _prepare)
     arng = ctx.rng('annotate')
     nann = 0
-    for ps in (arng.sample(wcand, min(len(wcand), 150)) if ctx.quick else wcand):
+    for ps in (arng.sample(wcand, min(len(wcand), 110)) if ctx.quick else wcand):
         for ps_ann, form, bound, sh in annotate_scenarios(ps, arng):
             r = check_case(ps_ann, form, bound, rep, stats, defer=deferred, getter=build_shared(ps_ann, sh, form), shared=sh)
             nann += 1
